@@ -1,3 +1,4 @@
+import Ntrip.Proofs.Translated
 import Ntrip.Proofs.Bits
 /-!
 # C14 — bit-field extraction returns exactly the addressed bits, signed or unsigned
@@ -81,5 +82,13 @@ example : getBitsU? [0xd3, 0x00, 0x8a, 0x43] 14 10 = some 138 := by decide
 example : getBitsI? [0xff, 0x80, 0x00] 7 10 = some (-256) := by decide
 example : getBitsI? [0x80, 0, 0, 0, 0, 0, 0, 0] 0 64 = some (-9223372036854775808) := by decide +kernel
 example : getBitsU? [0xd3] 4 8 = none := by decide
+
+/-- **Translator tie**: the Lean function that `extract/translate.go` regenerates on every run
+    from the body of the loop of `GetBitsAsUint64` (index, shift, mask, accumulate - in wrapping
+    64-bit arithmetic) is the model's loop step, for every buffer, position and accumulator.  (The
+    loop header `for i := pos; i < pos+len; i++` is pinned by the guards tie.) -/
+theorem translated_loop_body (buf : Bytes) (pos len acc k : Nat) :
+    Gen.fn_utils_GetBitsAsUint64_body (buf.map (·.toNat)) pos len (pos + k) acc = stepU buf pos acc k :=
+  translated_bits_body buf pos len acc k
 
 end Ntrip.C14
